@@ -110,34 +110,38 @@ def check_guard_and_counter(inc, rule, prefix):
 
 
 def tracker_operator(run, prog, cls, rule, prefix):
-    """All estimate trackers are deep copies of one base tracker chosen by dynamic_setting/alpha."""
+    """All estimate trackers are independent copies of one base tracker chosen by dynamic_setting/alpha."""
+    from .common import gate_on
     s = prog.summarise(cls, "__init__")
     fq = f"{cls.name}.__init__"
     run.analysed_fn(fq)
     roles, fields = role_fields(prog, cls)
     trackers = fields.get("TRACKER", [])
     run.need(len(trackers) >= 2, f"{cls.name}: fewer than two tracker fields")
+    mv = prog.find_class("MultiValueTracker")
+    mv_copies = False
+    if mv is not None:
+        mi = prog.summarise(mv, "__init__")
+        _, mfn = prog.find_method(mv, "__init__")
+        bp = ("param", [a.arg for a in mfn.args.args][1])
+        mv_copies = any(v[0] == "new" and v[2] == "deepcopy" and v[3] == (bp,) for v in mi.fields.values())
     bases = set()
     for f in trackers:
         t = s.fields.get(f)
-        inner = t
+        inner, via_mv = t, False
         if inner[0] == "new" and inner[2].endswith("MultiValueTracker"):
             pos, kw = new_items(inner)
             inner = pos[0] if pos else kw.get("base_tracker")
-            mv = prog.find_class("MultiValueTracker")
-            keeps_copy = False
-            if mv is not None:
-                mi = prog.summarise(mv, "__init__")
-                keeps_copy = any(v[0] == "new" and v[2] == "deepcopy" for v in mi.fields.values())
-            if inner is not None and not (inner[0] == "new" and inner[2] == "deepcopy") and not keeps_copy:
-                run.fail(rule, f"{prefix}.copy.{f}", f"{s.path}:{s.fn.lineno}", fq, f"self.{f} shares its base tracker",
-                         f"self.{f} is built on a shared base tracker object and MultiValueTracker does not copy it")
-        if inner is None or not (inner[0] == "new" and inner[2] == "deepcopy" and inner[3]):
-            run.fail(rule, f"{prefix}.copy.{f}", f"{s.path}:{s.fn.lineno}", fq, f"self.{f} = {ir.show_nl(t)[:100]}",
-                     f"every estimate tracker must be an independent deep copy of the one base tracker; self.{f} is "
-                     f"{ir.show_nl(t)[:160]} (a shared object would be updated through several fields)")
+            via_mv = True
+        if inner is not None and inner[0] == "new" and inner[2] == "deepcopy" and inner[3]:
+            bases.add(inner[3][0])
             continue
-        bases.add(inner[3][0])
+        if via_mv and inner is not None and mv_copies:
+            bases.add(inner)            # MultiValueTracker deep-copies its base tracker itself
+            continue
+        run.fail(rule, f"{prefix}.copy.{f}", f"{s.path}:{s.fn.lineno}", fq, f"self.{f} = {ir.show_nl(t)[:100]}",
+                 f"every estimate tracker must be an independent deep copy of the one base tracker; self.{f} is "
+                 f"{ir.show_nl(t)[:160]} (a shared object would be updated through several fields)")
     if len(bases) > 1:
         run.fail(rule, f"{prefix}.same-base", f"{s.path}:{s.fn.lineno}", fq, "different base trackers",
                  "the trackers are not copies of one base tracker: " + " | ".join(ir.show_nl(b)[:80] for b in bases))
@@ -149,23 +153,23 @@ def tracker_operator(run, prog, cls, rule, prefix):
     sa = ("param", "smoothing_alpha")
     es = prog.find_class("ExponentialSmoothingTracker")
     wf = prog.find_class("WelfordTracker")
-    ok = base[0] == "gate" and base[1] == dyn and base[2][0] == "new" and base[2][2] == es.qual and \
-        base[3][0] == "new" and base[3][2] == wf.qual
-    alpha_ok = False
+    sel = gate_on(base, dyn)
+    ok = sel is not None and sel[0][0] == "new" and sel[0][2] == es.qual and sel[1][0] == "new" and sel[1][2] == wf.qual
     if ok:
-        pos, kw = new_items(base[2])
+        pos, kw = new_items(sel[0])
         a = kw.get("alpha", pos[0] if pos else None)
         eff = s.fields.get("_smoothing_alpha")
-        alpha_ok = a is not None and a == eff and eff in (sa, ("gate", ("cmp", "is", sa, ("const", None)), ("const", 0.001), sa))
-        if not alpha_ok:
+        dflt = gate_on(eff, ("cmp", "is", sa, ("const", None))) if eff is not None else None
+        eff_ok = eff == sa or (dflt is not None and const_value(dflt[0]) is not None and
+                               abs(float(const_value(dflt[0])) - 0.001) < 1e-12 and dflt[1] == sa)
+        if not (a is not None and a == eff and eff_ok):
             run.fail(rule, f"{prefix}.alpha", f"{s.path}:{s.fn.lineno}", fq, f"alpha = {ir.show_nl(a) if a else None}",
                      f"the exponential smoothing tracker must use the configured smoothing parameter (default 0.001); "
                      f"it uses {ir.show_nl(a) if a else None}")
     run.check(ok, rule, f"{prefix}.selection", f"{s.path}:{s.fn.lineno}", fq, f"base tracker {ir.show_nl(base)[:160]}",
               f"base tracker must be ExponentialSmoothingTracker(alpha) in the dynamic setting and WelfordTracker() "
               f"otherwise; found {ir.show_nl(base)[:200]}",
-              "base = dynamic ? ExponentialSmoothingTracker(alpha=configured) : WelfordTracker(); all trackers deepcopy(base)")
-    # the concrete explainer passes its own dynamic_setting / smoothing_alpha through (params keep their names)
+              "base = dynamic ? ExponentialSmoothingTracker(alpha=configured) : WelfordTracker(); all trackers copies of it")
     _, ifn = prog.find_method(cls, "__init__")
     own = {a.arg for a in ifn.args.args + ifn.args.kwonlyargs}
     run.check({"dynamic_setting", "smoothing_alpha"} <= own, rule, f"{prefix}.passthrough", f"{s.path}:{s.fn.lineno}", fq,
@@ -174,45 +178,53 @@ def tracker_operator(run, prog, cls, rule, prefix):
     return base
 
 
+def meanout_arg(r):
+    """If r is the mean model output {l: sum(o.get(l, 0) for o in outs) / len(outs) for l in union of
+    the outputs' keys}, return (outs, ''), else (None, reason). Works on the inlined helper as well as on
+    an explainer that spells the mean out itself."""
+    if r[0] == "res" and r[2] == MEANOUT and r[3]:
+        return r[3][0], ""                      # helper kept as a call (e.g. recursion bound): trust its own check
+    if not (r[0] == "comp" and r[1] == "dict" and not r[6] and r[4] == ("elem", r[2])):
+        return None, f"{ir.show_nl(r)[:120]} is not a dict over the labels"
+    labels, lab = r[3], ("elem", r[2])
+    if not (labels[0] == "comp" and labels[1] == "set" and not labels[6] and labels[5][0] == "flat"):
+        return None, f"labels range over {ir.show_nl(labels)[:100]}, expected the union of all output keys"
+    outs = labels[3]
+    inner = labels[5][1]
+    lab_ok = inner[0] == "comp" and inner[3] == ("elem", labels[2]) and inner[5] == ("elem", inner[2]) and not inner[6]
+    if not lab_ok:
+        return None, f"labels range over {ir.show_nl(labels)[:100]}, expected the union of all output keys"
+    v = r[5]
+    if not (v[0] == "op" and v[1] == "/"):
+        return None, f"value {ir.show_nl(v)[:120]} is not sum/len"
+    num, den = v[2], v[3]
+    terms = num
+    if num[0] == "fn" and num[1] == "sum" and len(num[2]) == 1:
+        terms = num[2][0]
+    if terms[0] == "new" and terms[2] == "list" and len(terms[3]) == 1:
+        terms = terms[3][0]
+    num_ok = terms[0] == "comp" and terms[3] == outs and not terms[6] and terms[5][0] == "res" and \
+        terms[5][2] == ".get" and terms[5][3][0] == ("elem", terms[2]) and terms[5][3][1] == lab and \
+        len(terms[5][3]) == 3 and const_value(terms[5][3][2]) == 0
+    if not num_ok:
+        return None, f"numerator {ir.show_nl(num)[:120]} is not the sum over all outputs of output.get(label, 0)"
+    if den != ("fn", "len", (outs,)):
+        return None, f"denominator {ir.show_nl(den)[:80]} is not the number of outputs"
+    return outs, ""
+
+
 def meanout_ok(run, prog, rule, inst):
-    """_get_mean_model_output == {l: sum(o.get(l, 0) for o in outputs) / len(outputs) for l in all labels}."""
-    s = prog.summarise_func(MEANOUT)
+    """The shipped helper (if it still exists under its name) has the mean-output form."""
+    try:
+        s = prog.summarise_func(MEANOUT)
+    except ir.Unsupported:
+        return True
     run.analysed_fn("_get_mean_model_output")
     _, fn = prog.func(MEANOUT)
     outs = ("param", fn.args.args[0].arg)
-    r = s.ret
-    fq = "_get_mean_model_output"
-    ok, why = False, ""
-    if r[0] == "comp" and r[1] == "dict" and not r[6] and r[4] == ("elem", r[2]):
-        labels, lab = r[3], ("elem", r[2])
-        lab_ok = labels[0] == "comp" and labels[1] == "set" and labels[3] == outs and not labels[6] and \
-            labels[5][0] == "flat" and labels[5][1][0] == "comp" and labels[5][1][3] == ("elem", labels[2]) and \
-            labels[5][1][5] == ("elem", labels[5][1][2]) and not labels[5][1][6]
-        v = r[5]
-        if not lab_ok:
-            why = f"labels range over {ir.show_nl(labels)[:120]}, expected the union of all output keys"
-        elif v[0] == "op" and v[1] == "/":
-            num, den = v[2], v[3]
-            terms = num
-            if num[0] == "fn" and num[1] == "sum" and len(num[2]) == 1:
-                terms = num[2][0]
-            if terms[0] == "new" and terms[2] == "list" and len(terms[3]) == 1:
-                terms = terms[3][0]
-            num_ok = terms[0] == "comp" and terms[3] == outs and not terms[6] and terms[5][0] == "res" and \
-                terms[5][2] == ".get" and terms[5][3][0] == ("elem", terms[2]) and terms[5][3][1] == lab and \
-                len(terms[5][3]) == 3 and const_value(terms[5][3][2]) == 0
-            den_ok = den == ("fn", "len", (outs,))
-            if not num_ok:
-                why = f"numerator {ir.show_nl(num)[:140]} is not the sum over all outputs of output.get(label, 0)"
-            elif not den_ok:
-                why = f"denominator {ir.show_nl(den)[:100]} is not the number of outputs"
-            else:
-                ok = True
-        else:
-            why = f"value {ir.show_nl(v)[:140]} is not sum/len"
-    else:
-        why = f"result {ir.show_nl(r)[:140]} is not a dict over the labels"
-    run.check(ok, rule, inst, f"{s.path}:{s.fn.lineno}", fq, f"mean output: {why or 'ok'}",
+    got, why = meanout_arg(s.ret)
+    ok = got == outs
+    run.check(ok, rule, inst, f"{s.path}:{s.fn.lineno}", "_get_mean_model_output", f"mean output: {why or 'ok'}",
               f"the mean model output must be, per label of any output, the sum of output.get(label, 0) divided by the "
               f"number of outputs (a missing label counts as 0): {why}",
               "{l: sum(o.get(l, 0) for o in outs) / len(outs) for l in union of keys}")
